@@ -11,7 +11,20 @@
 #include <string.h>
 #include <unistd.h>
 
+#include <errno.h>
 static unsigned char lv_paint = 0xA5;
+
+/* Environment passes (lib/vlib.py runs a sample of every check's cases again under them):
+ *   LV_DEBUG_LEVEL=n  the library's runtime debug level (default 0): D_* traces and REQUIRE logging become
+ *                     live, ASSERT becomes fatal - none of which may change a result the property constrains;
+ *   LV_ERRNO=e        a stale errno left behind by unrelated earlier code.
+ * A constructor, so that harnesses with their own main() get it too. */
+__attribute__((constructor)) static void lv_env_init(void)
+{
+    const char *d = getenv("LV_DEBUG_LEVEL"), *e = getenv("LV_ERRNO");
+    if (d) libast_debug_level = (unsigned int) atoi(d);
+    if (e) errno = atoi(e);
+}
 
 static int lv_hv(int c) { return (c <= '9') ? c - '0' : ((c | 32) - 'a' + 10); }
 /* decode hex into a fresh exact-size malloc block; *n = number of cells */
